@@ -6,3 +6,5 @@ func rd() {}
 func re() {}
 
 const RaceBuild = false
+
+func RaceErrors() int { return 0 }
